@@ -314,6 +314,46 @@ def _expand(h: _Helper, call: ast.Call, res: Optional[str], caller_names: Set[st
     return out
 
 
+def _as_expression(stmts: List[ast.stmt], depth: int = 0) -> Optional[ast.AST]:
+    """the value a block returns, as one expression, when the block consists only of returns, `if`s of such blocks and
+    single-use temporaries (`x = e` with x read later): `if c: return a` / `return b`  ->  `a if c else b`"""
+    if depth > 6 or not stmts:
+        return None
+    st, rest = stmts[0], stmts[1:]
+    if isinstance(st, ast.Return):
+        return st.value if st.value is not None else ast.Constant(value=None)
+    if isinstance(st, ast.If):
+        a = _as_expression(st.body if _always_returns(st.body) else st.body + rest, depth + 1)
+        b = _as_expression(st.orelse + rest if not _always_returns(st.orelse) else st.orelse, depth + 1)
+        if a is None or b is None:
+            return None
+        return ast.IfExp(test=st.test, body=a, orelse=b)
+    if isinstance(st, ast.Assign) and len(st.targets) == 1 and isinstance(st.targets[0], ast.Name):
+        inner = _as_expression(rest, depth + 1)
+        if inner is None:
+            return None
+        nm = st.targets[0].id
+        if any(isinstance(x, ast.Name) and x.id == nm and isinstance(x.ctx, ast.Store) for r_ in rest for x in ast.walk(r_)):
+            return None
+        return _Subst({nm: st.value}, {}).visit(copy.deepcopy(inner))
+    if isinstance(st, ast.Expr) and isinstance(st.value, ast.Constant):
+        return _as_expression(rest, depth + 1)
+    return None
+
+
+def _fold_result(body: List[ast.stmt], res: Optional[str]):
+    """when the only store to the result variable is a last statement `res = <name / attribute / constant>`, hand that
+    expression to the caller instead of a temporary"""
+    if res is None or not body:
+        return body, None
+    last = body[-1]
+    if isinstance(last, ast.Assign) and len(last.targets) == 1 and isinstance(last.targets[0], ast.Name) and last.targets[0].id == res and _simple_arg(last.value):
+        n = sum(1 for st in body for x in ast.walk(st) if isinstance(x, ast.Name) and x.id == res and isinstance(x.ctx, ast.Store))
+        if n == 1:
+            return body[:-1], last.value
+    return body, None
+
+
 def _callee_key(call: ast.Call, caller_cls: Optional[str], caller_self: Optional[str], enclosing: List[ast.FunctionDef]):
     f = call.func
     if isinstance(f, ast.Name):
@@ -377,8 +417,7 @@ def inline_module(tree: ast.Module, known: Optional[Set[str]]) -> ast.Module:
                     return h
             return helpers.get(("f", key[1]))
         if key[0] == "self":
-            h = helpers.get(("m", key[1], key[2]))
-            return h if h is not None and h.kind == "method" else None
+            return helpers.get(("m", key[1], key[2]))  # instance, static and class methods can all be called through self
         if key[0] in ("cls", "clsname"):
             h = helpers.get(("m", key[1], key[2]))
             return h if h is not None and h.kind in ("static", "classmethod") else None
@@ -476,11 +515,12 @@ def inline_module(tree: ast.Module, known: Optional[Set[str]]) -> ast.Module:
                                 return [st]
                             budget[0] -= 1
                             changed_any = True
+                            body, direct = _fold_result(body, tmp)
 
                             class R(ast.NodeTransformer):
                                 def visit_Call(self, node):
                                     if node is x:
-                                        return ast.copy_location(ast.Name(id=tmp, ctx=ast.Load()), node)
+                                        return ast.copy_location(copy.deepcopy(direct) if direct is not None else ast.Name(id=tmp, ctx=ast.Load()), node)
                                     return self.generic_visit(node)
                             st2 = R().visit(st)
                             return rewrite_block(body, budget) + try_inline_stmt(st2, budget)
@@ -495,17 +535,51 @@ def inline_module(tree: ast.Module, known: Optional[Set[str]]) -> ast.Module:
             budget[0] -= 1
             changed_any = True
             tail: List[ast.stmt] = []
+            body, direct = _fold_result(body, res)
+            res_expr = copy.deepcopy(direct) if direct is not None else ast.Name(id=res, ctx=ast.Load())
             if mode in ("assign", "assign-yieldfrom"):
                 st2 = copy.copy(st)
-                st2.value = ast.copy_location(ast.Name(id=res, ctx=ast.Load()), st)
+                st2.value = ast.copy_location(res_expr, st)
                 tail = [st2]
             elif mode == "return":
-                tail = [ast.copy_location(ast.Return(value=ast.copy_location(ast.Name(id=res, ctx=ast.Load()), st)), st)]
+                tail = [ast.copy_location(ast.Return(value=ast.copy_location(res_expr, st)), st)]
             # helpers called by the helper are expanded in turn
             return rewrite_block(body, budget) + tail
 
         budget = [60]
         fn.body = rewrite_block(fn.body, budget)
+
+        # calls that sit where statements cannot be put (inside comprehensions, lambdas, conditional expressions): a helper
+        # whose body is one expression is substituted in place, arguments for parameters
+        class E(ast.NodeTransformer):
+            def visit_FunctionDef(self, node):
+                return node if node is not fn else self.generic_visit(node)
+
+            def visit_Call(self, node):
+                nonlocal changed_any
+                self.generic_visit(node)
+                hh = lookup(_callee_key(node, caller_cls, caller_self, enclosing + [fn]), caller_cls, enclosing + [fn])
+                if hh is None or hh.node is fn or hh.is_gen or budget[0] <= 0:
+                    return node
+                ex = _as_expression(copy.deepcopy(_strip_doc(hh.node.body)))
+                if ex is None:
+                    return node
+                try:
+                    prologue, expr_map, rename = _bind(hh, node, set(), caller_self)
+                except _NotInlinable:
+                    return node
+                # every parameter must be substitutable as an expression (no prologue assignments possible here)
+                for st_ in prologue:
+                    expr_map[[k for k, v in rename.items() if v == st_.targets[0].id][0]] = st_.value
+                rename = {}
+                budget[0] -= 1
+                changed_any = True
+                new = _Subst(expr_map, rename).visit(ex)
+                for x in ast.walk(new):
+                    if isinstance(x, (ast.expr,)):
+                        ast.copy_location(x, node)
+                return new
+        fn.body = [E().visit(st) for st in fn.body]
         # nested functions of this function
         for st in list(ast.walk(fn)):
             if isinstance(st, ast.FunctionDef) and st is not fn and _parent_fn.get(id(st)) is fn:
